@@ -1,9 +1,11 @@
 //go:build verif
 
-package internal
+package internal_test
 
 // C04 adapter: hands this parameter set's functions to the shared harness
 // (sign/internal/verifc04). The same file is used for mode2/3/5 and mldsa44/65/87.
+// External test package: only exported names of the package under test are used (the compiler
+// enforces it); the unexported scalar helpers decompose / makeHint / useHint have files of their own.
 
 import (
 	"io"
@@ -11,6 +13,7 @@ import (
 
 	common "github.com/cloudflare/circl/sign/internal/dilithium"
 	"github.com/cloudflare/circl/sign/internal/verifc04"
+	. "github.com/cloudflare/circl/sign/mldsa/mldsa65/internal"
 )
 
 type c04Key struct {
@@ -49,9 +52,6 @@ func c04Impl() *verifc04.Impl {
 		PublicKeySize: PublicKeySize, PrivateKeySize: PrivateKeySize, SignatureSize: SignatureSize,
 		PolyLeqEtaSize: PolyLeqEtaSize, PolyLeGamma1Size: PolyLeGamma1Size, PolyW1Size: PolyW1Size,
 		NIST: NIST, X4: DeriveX4Available,
-		Decompose:     decompose,
-		MakeHint:      makeHint,
-		UseHint:       useHint,
 		PolyDecompose: func(p, p0, p1 *verifc04.P) { PolyDecompose(c04P(p), c04P(p0), c04P(p1)) },
 		PolyMakeHint:  func(p, p0, p1 *verifc04.P) uint32 { return PolyMakeHint(c04P(p), c04P(p0), c04P(p1)) },
 		PolyUseHint:   func(p, q, h *verifc04.P) { PolyUseHint(c04P(p), c04P(q), c04P(h)) },
